@@ -58,6 +58,22 @@ pub mod oneshot {
 #[verifier::external_body]
 pub fn verif_now_secs() -> u64 { unimplemented!() }
 
+// chrono: the local wall clock and its two renderings (TRUSTED: total functions of the external crate, values opaque)
+pub struct Local;
+#[verifier::external_body]
+#[verifier::accept_recursive_types(Tz)]
+pub struct DateTime<Tz> { p: std::marker::PhantomData<Tz> }
+impl Local {
+    #[verifier::external_body]
+    pub fn now() -> DateTime<Local> { unimplemented!() }
+}
+impl<Tz> DateTime<Tz> {
+    #[verifier::external_body]
+    pub fn timestamp(&self) -> i64 { unimplemented!() }
+    #[verifier::external_body]
+    pub fn to_rfc2822(&self) -> String { unimplemented!() }
+}
+
 // opaque error type replacing Box<dyn Error> (rule R2): only Ok/Err-ness is kept
 pub struct HErr { pub k: u8 }
 impl<T> From<SendError<T>> for HErr {
